@@ -152,6 +152,13 @@ def occupancy_oracle(obs):
             if m > cfg.max_in_memory_upload_chunks:
                 viol.append(V(f'{m} in-memory UploadPart tasks queued-or-running at once; max_in_memory_upload_chunks='
                               f'{cfg.max_in_memory_upload_chunks}', sym='tag-overrun', tag='in_memory_upload'))
+    # "a submitter blocks, rather than fails ..., while a stage is full": a hand-over refused for lack of room shows as
+    # NoResourcesAvailable escaping the task that tried it
+    for e in obs.events:
+        if e['kind'] == 'exec.finish' and e.get('escaped') and 'NoResourcesAvailable' in e['escaped']:
+            viol.append(V(f'a {e.get("task")} of the {e.get("stage_of")} stage was refused a hand-over to a full stage ({e["escaped"]}) instead of '
+                          f'waiting for room', sym='submit-refused', stage=e.get('stage_of')))
+            break
     # untagged request tasks alone must respect max_request_queue_size: count by task type
     for x in obs.xfers:
         e = x.submit_exc or (x.exc if x.outcome == 'raised' else None)
